@@ -318,6 +318,9 @@ pub fn c03(o: &mut O, tier: &str, rng: &mut Rng) {
             let lc = signer::compact_utc(local);
             let sign = if off_min < 0 { '-' } else { '+' };
             let text = format!("{}-{}-{}T{}:{}:{}{}{:02}:{:02}", &lc[..4], &lc[4..6], &lc[6..8], &lc[9..11], &lc[11..13], &lc[13..15], sign, off_min.abs() / 60, off_min.abs() % 60);
+            if refiso::parse(text.as_bytes()) != Some(p2.t as i128 * 1_000_000_000) {
+                continue;
+            }
             p2.date_text = Some(text);
             // credential with the UTC date: conforming
             let b = build(&p2, &sp, rng, 0);
@@ -450,7 +453,12 @@ pub fn c04(o: &mut O, tier: &str, rng: &mut Rng) {
             plan.t = t;
             plan.query_carrier = (oi + ti) % 4 == 3;
             let frac: u32 = if style_has_fraction(style) { [0u32, 1, 500_000_000, 999_999_999][(oi / 5) % 4] } else { 0 };
-            plan.date_text = Some(render_time(t, frac, style));
+            let text = render_time(t, frac, style);
+            if refiso::parse(text.as_bytes()) != Some(t as i128 * 1_000_000_000 + frac as i128) {
+                // (a local year beyond 9999 cannot be written in this format: not a rendering of the instant)
+                continue;
+            }
+            plan.date_text = Some(text);
             // server time = request instant (incl. fraction) + offset
             let now_off = *off + frac as i128;
             let b = build(&plan, &sp, rng, now_off);
@@ -582,6 +590,14 @@ pub fn c05(o: &mut O, tier: &str, rng: &mut Rng) {
             signed.retain(|s| s != om);
             if om == "host" && rng.chance(1, 2) {
                 signed.push(":authority".to_string());
+            } else if rng.chance(2, 3) {
+                // names that contain, extend or shorten the omitted one are other names
+                let near = [format!("{}2", om), format!("x{}", om), om[1..].to_string(), om[..om.len() - 1].to_string(), format!("{}-", om), om.replace('-', "_")];
+                for k in 0..near.len() {
+                    if rng.chance(1, 2) && near[k] != *om && !near[k].is_empty() && !header_names.contains(&near[k]) && !needed.contains(&near[k]) {
+                        signed.push(near[k].clone());
+                    }
+                }
             }
         }
         plan.signed = signed.clone();
@@ -614,6 +630,7 @@ pub fn c05(o: &mut O, tier: &str, rng: &mut Rng) {
 // C11
 
 pub fn c11(o: &mut O, tier: &str, rng: &mut Rng) {
+    c11_enumerated(o, tier, rng);
     let n = match tier {
         "quick" => 22,
         "thorough" => 300,
@@ -736,6 +753,173 @@ pub fn c11(o: &mut O, tier: &str, rng: &mut Rng) {
     }
 }
 
+/// Enumerated header shapes for C11: a repeated signed header with empty / blank values in each
+/// position, names related by prefix around the bytes that delimit lines and lists, blanks that
+/// are not spaces, mixed-case repetitions.
+fn c11_enumerated(o: &mut O, tier: &str, rng: &mut Rng) {
+    let sp = Spelling::canonical();
+    let lists: Vec<Vec<&[u8]>> = vec![
+        vec![b"", b"b"],
+        vec![b"b", b""],
+        vec![b"a", b"", b"b"],
+        vec![b"", b"", b"b"],
+        vec![b"a", b"", b""],
+        vec![b"", b""],
+        vec![b""],
+        vec![b"   ", b"b"],
+        vec![b"b", b"   "],
+        vec![b" ", b" ", b"b"],
+        vec![b"", b"b", b""],
+        vec![b"a", b" ", b"", b"b"],
+        vec![b"a,b", b"c"],
+        vec![b"a", b"b,c"],
+        vec![b",", b""],
+        vec![b"", b","],
+        vec![b"a", b"a"],
+        vec![b"a", b"A"],
+        vec![b"\t", b"b"],
+        vec![b"b", b"\t"],
+        vec![b"\xa0", b"b"],
+        vec![b"a ", b" b"],
+        vec![b"a  b", b"a b"],
+    ];
+    for (li, vals) in lists.iter().enumerate() {
+        for qc in [false, true] {
+            if tier == "quick" && qc && li % 3 != 0 {
+                continue;
+            }
+            let mut plan = base_plan();
+            plan.query_carrier = qc;
+            for v in vals.iter() {
+                plan.headers.push(("x-amz-meta-e".to_string(), v.to_vec()));
+            }
+            plan.signed.push("x-amz-meta-e".to_string());
+            let b = build(&plan, &sp, rng, 0);
+            emit(o, 11, &b.wire, &b.cfg, &b.prov, &x_accept(), &format!("c11,repeated_values,base,{}", carrier_tag(&plan)));
+            let idx: Vec<usize> = (0..b.wire.headers.len()).filter(|&k| b.wire.headers[k].0.eq_ignore_ascii_case(b"x-amz-meta-e")).collect();
+            let block_of = |w: &Wire| -> Vec<Vec<u8>> { w.headers.iter().filter(|h| h.0.eq_ignore_ascii_case(b"x-amz-meta-e")).map(|h| signer::trimall(&h.1)).collect() };
+            let orig = block_of(&b.wire);
+            let mut muts: Vec<(&str, Wire)> = Vec::new();
+            // an instance more: empty or blank, before the first, after the last, in the middle
+            for (nm, val) in [("empty", &b""[..]), ("blank", &b"  "[..])] {
+                for (pos_nm, pos) in [("first", idx[0]), ("last", idx[idx.len() - 1] + 1), ("middle", idx[idx.len() / 2])] {
+                    let mut w = b.wire.clone();
+                    w.headers.insert(pos, (b"X-Amz-Meta-E".to_vec(), val.to_vec()));
+                    let _ = (nm, pos_nm);
+                    muts.push(("instance_added", w));
+                }
+            }
+            // an instance less
+            for &k in idx.iter() {
+                let mut w = b.wire.clone();
+                w.headers.remove(k);
+                muts.push(("instance_removed", w));
+            }
+            // two instances swapped, two instances merged into one value
+            if idx.len() >= 2 {
+                let mut w = b.wire.clone();
+                let t = w.headers[idx[0]].1.clone();
+                w.headers[idx[0]].1 = w.headers[idx[idx.len() - 1]].1.clone();
+                w.headers[idx[idx.len() - 1]].1 = t;
+                muts.push(("instances_swapped", w));
+                let mut w = b.wire.clone();
+                let mut joined = w.headers[idx[0]].1.clone();
+                joined.push(b' ');
+                joined.extend(w.headers[idx[1]].1.iter());
+                w.headers[idx[0]].1 = joined;
+                w.headers.remove(idx[1]);
+                muts.push(("instances_merged_by_space", w));
+            }
+            for (nm, w) in muts {
+                // the covered value list is the per-instance trimmed values in order, joined by commas:
+                // the mutation is a change exactly when that rendering differs
+                let now = block_of(&w);
+                let same = now.join(&b","[..]) == orig.join(&b","[..]) && !now.is_empty();
+                emit(o, 11, &w, &b.cfg, &b.prov, &if same { x_accept() } else { x_refuse() }, &format!("c11,repeated_values,{},{}", nm, if same { "same_rendering" } else { "changed" }));
+            }
+            // spacing only: every empty value written as blanks and vice versa
+            let mut w = b.wire.clone();
+            for &k in idx.iter() {
+                let v = &mut w.headers[k].1;
+                if v.iter().all(|c| *c == b' ') {
+                    *v = if v.is_empty() { b"    ".to_vec() } else { Vec::new() };
+                } else {
+                    let mut nv = b" ".to_vec();
+                    nv.extend(v.iter());
+                    nv.push(b' ');
+                    *v = nv;
+                }
+            }
+            emit(o, 11, &w, &b.cfg, &b.prov, &x_accept(), "c11,repeated_values,respaced");
+            // the instances under different letter cases of the name
+            let mut w = b.wire.clone();
+            for (j, &k) in idx.iter().enumerate() {
+                w.headers[k].0 = if j % 2 == 0 { b"X-AMZ-META-E".to_vec() } else { b"x-Amz-Meta-e".to_vec() };
+            }
+            emit(o, 11, &w, &b.cfg, &b.prov, &x_accept(), "c11,repeated_values,mixed_case_names");
+        }
+    }
+    // names that are prefixes of one another, continued by bytes that sort below ':' and ';'
+    // (a sort of rendered lines or of the joined list would order them differently), all signed
+    let families: Vec<Vec<&str>> = vec![
+        vec!["x-a", "x-a-b", "x-a.b", "x-a0", "x-a!", "x-a_b", "x-ab", "x-a~"],
+        vec!["x-amz-meta", "x-amz-meta-", "x-amz-meta-a", "x-amz-meta-a-", "x-amz-meta-aa", "x-amz-meta.a"],
+        vec!["a", "a-", "a0", "aa", "b", "host-", "hos", "hostx", "x-amz-dat", "x-amz-date-", "x-amz-date2"],
+        vec!["date2", "dat", "x-amz-security-toke", "x-amz-security-token-", "content-typ", "content-type-", "authorizatio", "authorization-"],
+    ];
+    for (fi, names) in families.iter().enumerate() {
+        for qc in [false, true] {
+            let mut plan = base_plan();
+            plan.query_carrier = qc;
+            for (k, n) in names.iter().enumerate() {
+                plan.headers.push((n.to_string(), format!("v{} {}", k, n).into_bytes()));
+                plan.signed.push(n.to_string());
+            }
+            let b = build(&plan, &sp, rng, 0);
+            emit(o, 11, &b.wire, &b.cfg, &b.prov, &x_accept(), &format!("c11,related_names,family{},{}", fi, carrier_tag(&plan)));
+            // arrival order reversed (per-name order is trivially kept: every name occurs once)
+            let mut w = b.wire.clone();
+            w.headers.reverse();
+            emit(o, 11, &w, &b.cfg, &b.prov, &x_accept(), "c11,related_names,reversed");
+            // the value of one moved to its neighbour
+            let k0 = b.wire.headers.iter().position(|h| h.0 == names[0].as_bytes()).unwrap();
+            let k1 = b.wire.headers.iter().position(|h| h.0 == names[1].as_bytes()).unwrap();
+            let mut w = b.wire.clone();
+            let t = w.headers[k0].1.clone();
+            w.headers[k0].1 = w.headers[k1].1.clone();
+            w.headers[k1].1 = t;
+            emit(o, 11, &w, &b.cfg, &b.prov, &x_refuse(), "c11,related_names,values_exchanged");
+            // one of them renamed to its neighbour (one name twice, the other absent)
+            let mut w = b.wire.clone();
+            w.headers[k1].0 = names[0].as_bytes().to_vec();
+            emit(o, 11, &w, &b.cfg, &b.prov, &x_refuse(), "c11,related_names,renamed");
+        }
+    }
+    // single signed values over blanks that are not spaces and over letter case
+    let singles: [&[u8]; 20] = [
+        b"a\tb", b"\ta", b"a\t", b"a \t b", b"\xa0a", b"a\xa0", b"a\xa0\xa0b", b"a\x0bb", b"a\x0cb", b"A", b"a", b"a b", b"a  b", b"a,b", b"a, b", b"a ,b", b"\"a  b\"", b"a;b", b"a=b", b"\xe9",
+    ];
+    for (si, v) in singles.iter().enumerate() {
+        let mut plan = base_plan();
+        plan.query_carrier = si % 3 == 2;
+        plan.headers.push(("x-amz-meta-s".to_string(), v.to_vec()));
+        plan.signed.push("x-amz-meta-s".to_string());
+        let b = build(&plan, &sp, rng, 0);
+        emit(o, 11, &b.wire, &b.cfg, &b.prov, &x_accept(), "c11,single_value,base");
+        let k = b.wire.headers.iter().position(|h| h.0 == b"x-amz-meta-s").unwrap();
+        // every other value of the list in its place: accepted exactly when it is the same after trimming / collapsing spaces
+        for (sj, v2) in singles.iter().enumerate() {
+            if tier == "quick" && (si + sj) % 4 != 0 && sj != si {
+                continue;
+            }
+            let mut w = b.wire.clone();
+            w.headers[k].1 = v2.to_vec();
+            let same = signer::trimall(v) == signer::trimall(v2);
+            emit(o, 11, &w, &b.cfg, &b.prov, &if same { x_accept() } else { x_refuse() }, &format!("c11,single_value,replaced,{}", if same { "same" } else { "changed" }));
+        }
+    }
+}
+
 // ---------------------------------------------------------------------------------------------
 // C12
 
@@ -769,6 +953,34 @@ pub fn c12(o: &mut O, tier: &str, rng: &mut Rng) {
         (b"text/plain", false, None),
         (b"application/json; charset=klingon", false, None),
         (b"multipart/form-data", false, None),
+        // optional blanks around ';', empty parameters, parameter-name case, blanks around the label
+        (b"application/x-www-form-urlencoded ; charset=utf-8", true, None),
+        (b"application/x-www-form-urlencoded\t;\tcharset=utf-8", true, None),
+        (b"application/x-www-form-urlencoded;", true, None),
+        (b"application/x-www-form-urlencoded;;charset=utf-8;", true, None),
+        (b"application/x-www-form-urlencoded; charset=UTF-8 ", true, None),
+        (b"application/x-www-form-urlencoded; Charset=Utf-8", true, None),
+        (b"application/x-www-form-urlencoded; charset=utf-8; charset=klingon", true, None),
+        (b"application/x-www-form-urlencoded; x-charset=klingon", true, None),
+        (b"application/x-www-form-urlencoded; notcharset=klingon; charset=utf-8", true, None),
+        (b"application/x-www-form-urlencoded; charset=klingon; charset=utf-8", false, Some(3)),
+        (b"application/x-www-form-urlencoded; charset=utf-8\xa0", false, Some(3)),
+        (b"application/x-www-form-urlencoded; charset=utf-8;x", true, None),
+        (b"application/x-www-form-urlencoded; charset=utf", false, Some(3)),
+        (b"application/x-www-form-urlencoded; charset=utf-88", false, Some(3)),
+        // media types that merely contain / resemble the form type
+        (b"application/x-www-form-urlencoded\xa0", false, None),
+        (b"\xa0application/x-www-form-urlencoded", false, None),
+        (b"application/x-www-form-urlencoded,text/plain", false, None),
+        (b"application/x-www-form-urlencoded charset=utf-8", false, None),
+        (b"text/plain; application/x-www-form-urlencoded", false, None),
+        (b"application/x-www-form-urlencoded+json", false, None),
+        (b"application/x-www-form-urlencode", false, None),
+        (b"xapplication/x-www-form-urlencoded", false, None),
+        (b"application/x-www-form-urlencoded/x", false, None),
+        (b"", false, None),
+        (b"; charset=utf-8", false, None),
+        (b"application/X-WWW-FORM-URLENCODED; charset=utf-8", false, None),
     ];
     for i in 0..n {
         for (ci, (ct, folds, kind)) in cts.iter().enumerate() {
@@ -795,7 +1007,41 @@ pub fn c12(o: &mut O, tier: &str, rng: &mut Rng) {
                     plan.body_query.push((b"only".to_vec(), b"body".to_vec()));
                 }
                 let sp = if i % 2 == 1 { Spelling::random(rng) } else { sp0.clone() };
-                let b = build(&plan, &sp, rng, 0);
+                let mut b = build(&plan, &sp, rng, 0);
+                if plan.fold && (i % 2 == 1 || ci % 4 == 1) {
+                    // a folded body is a query string: any admissible spelling of the same pairs (escape case,
+                    // needless escapes, '+' for a space, '&&', a trailing '&'; raw UTF-8 where the charset is UTF-8)
+                    let raw_ok = !ct.windows(7).any(|w| w.eq_ignore_ascii_case(b"charset")) || ct.windows(3).any(|w| w.eq_ignore_ascii_case(b"utf"));
+                    let mut body = Vec::new();
+                    for (j, (k, v)) in plan.body_query.iter().enumerate() {
+                        if j > 0 {
+                            body.push(b'&');
+                            if rng.chance(1, 3) {
+                                body.push(b'&');
+                            }
+                        }
+                        for (part, is_val) in [(k, false), (v, true)] {
+                            if is_val {
+                                body.push(b'=');
+                            }
+                            if raw_ok && std::str::from_utf8(part).is_ok() && part.iter().any(|c| *c >= 0x80) && rng.chance(1, 2) {
+                                for &c in part.iter() {
+                                    if c >= 0x80 || signer::is_unreserved(c) {
+                                        body.push(c);
+                                    } else {
+                                        body.extend(format!("%{:02x}", c).as_bytes());
+                                    }
+                                }
+                            } else {
+                                body.extend(spell_bytes(part, &sp, rng, true));
+                            }
+                        }
+                    }
+                    if !body.is_empty() && rng.chance(1, 3) {
+                        body.push(b'&');
+                    }
+                    b.wire.body = body;
+                }
                 let mut cfg = b.cfg.clone();
                 cfg.fold = fold_opt;
                 let x = match (fold_opt, kind) {
@@ -822,6 +1068,33 @@ pub fn c12(o: &mut O, tier: &str, rng: &mut Rng) {
                 }
             }
         }
+        // two Content-Type headers (both signed, as one name with two values): the first one decides
+        for (first, second, folds) in [
+            (&b"application/x-www-form-urlencoded"[..], &b"text/plain"[..], true),
+            (b"text/plain", b"application/x-www-form-urlencoded", false),
+            (b"application/x-www-form-urlencoded; charset=utf-8", b"application/x-www-form-urlencoded; charset=klingon", true),
+            (b"", b"application/x-www-form-urlencoded", false),
+        ] {
+            if tier == "quick" && i > 1 {
+                continue;
+            }
+            let mut plan = random_plan_std(rng);
+            plan.method = "POST".to_string();
+            plan.form = true;
+            plan.fold = folds;
+            plan.headers.retain(|h| h.0 != "content-type" && h.0 != "content-length");
+            plan.signed.retain(|h| h != "content-length");
+            plan.headers.push(("content-type".to_string(), first.to_vec()));
+            plan.headers.push(("content-type".to_string(), second.to_vec()));
+            if !plan.signed.contains(&"content-type".to_string()) {
+                plan.signed.push("content-type".to_string());
+            }
+            plan.body_query.push((b"in".to_vec(), b"body".to_vec()));
+            let b = build(&plan, &sp0, rng, 0);
+            let mut cfg = b.cfg.clone();
+            cfg.fold = true;
+            emit(o, 12, &b.wire, &cfg, &b.prov, &x_accept(), &format!("c12,two_content_types,{}", if folds { "first_is_form" } else { "first_is_other" }));
+        }
         // undecodable bodies
         let mut plan = base_plan();
         plan.method = "POST".to_string();
@@ -830,7 +1103,11 @@ pub fn c12(o: &mut O, tier: &str, rng: &mut Rng) {
         plan.headers.push(("content-type".to_string(), b"application/x-www-form-urlencoded".to_vec()));
         plan.signed.push("content-type".to_string());
         let b = build(&plan, &sp0, rng, 0);
-        for bad in [&b"a=\xff"[..], b"\xc0\xaf=1", b"a=\xed\xa0\x80", b"x=\xf4\x90\x80\x80", b"k=\xe2\x82", b"\x80"] {
+        for bad in [
+            &b"a=\xff"[..], b"\xc0\xaf=1", b"a=\xed\xa0\x80", b"x=\xf4\x90\x80\x80", b"k=\xe2\x82", b"\x80",
+            // truncated inside a 2-, 3- and 4-byte character at the very end; an overlong NUL; a lone continuation byte after valid text
+            b"k=\xc3", b"k=v&x=\xf0\x9f\x98", b"k=v&x=\xf0\x9f", b"k=v&x=\xf0", b"a=\xc0\x80", b"a=1&b=2\xbf", b"\xe2\x82\xac=\xe2\x82",
+        ] {
             let mut w = b.wire.clone();
             w.body = bad.to_vec();
             emit(o, 12, &w, &b.cfg, &b.prov, &x_kind(3, 0), "c12,invalid_utf8,opt_on");
@@ -870,7 +1147,7 @@ fn has(set: u32, d: u32) -> bool {
 }
 
 /// Number of concrete variants of each defect class (see `inject_v`).
-const NVAR: [u8; 16] = [3, 4, 3, 2, 4, 5, 3, 5, 5, 4, 3, 3, 4, 4, 3, 5];
+const NVAR: [u8; 16] = [3, 4, 3, 2, 4, 7, 3, 8, 5, 4, 3, 3, 4, 4, 3, 5];
 
 const PERRS: [ErrSpec; 6] = [ErrSpec::Sig(4), ErrSpec::Sig(0), ErrSpec::Foreign, ErrSpec::Sig(11), ErrSpec::Sig(1), ErrSpec::Sig(2)];
 
@@ -887,9 +1164,9 @@ fn inject(b: &Built, plan: &Plan, set: u32, rng: &mut Rng) -> (Wire, Cfg, Prov, 
 /// * form (folding on): 0 unknown charset, 1 body not UTF-8, 2 malformed escape in the body (a malformed query string)
 /// * no carrier: 0 marker renamed / header removed, 1 marker in another letter case / header under another name
 /// * both carriers: 0 the other marker, 1 with a foreign value, 2 with an empty value, 3 blank / without '='
-/// * algorithm: 0 SHA512, 1 lower case, 2 present but empty, 3 proper prefix, 4 trailing junk
+/// * algorithm: 0 SHA512, 1 lower case, 2 present but empty, 3 proper prefix, 4 trailing junk, 5 a tab where the space belongs / a trailing blank, 6 a leading NBSP
 /// * syntax (header): 0 trailing bare word, 1 leading bare word, 2 a parameter name without '='
-/// * missing: 0 signature, 1 credential, 2 signed headers, 3 date, 4 signature name in lower case
+/// * missing: 0 signature, 1 credential, 2 signed headers, 3 date, 4-7 the name of the signature / credential / signed-header / date parameter in lower case
 /// * requirements: 0 always-present, 1 host not signed, 2 if-in-request, 3 prefix, 4 signed-header list present but empty
 /// * date: 0 other format, 1 present but empty, 2 impossible calendar date, 3 no zone
 /// * expired / future: 0 by 16 min, 1 by 15 min 1 s, 2 by a day
@@ -1043,6 +1320,23 @@ fn inject_v(b: &Built, plan: &Plan, set: u32, vars: &[u8; 16], perr_sel: usize) 
     }
     if has(set, D_MISSING) {
         match v(D_MISSING) {
+            5 => {
+                if q {
+                    query = query.replace("X-Amz-Credential=", "x-amz-credential=");
+                } else {
+                    auth_mut(&mut w, |a| a.replace("Credential=", "credential="));
+                }
+            }
+            6 => {
+                if q {
+                    query = query.replace("X-Amz-SignedHeaders=", "x-amz-signedheaders=");
+                } else {
+                    auth_mut(&mut w, |a| a.replace("SignedHeaders=", "SIGNEDHEADERS="));
+                }
+            }
+            7 if q => {
+                query = query.replace("X-Amz-Date=", "x-amz-date=");
+            }
             0 | 4 => {
                 let low = v(D_MISSING) == 4;
                 if q {
@@ -1082,9 +1376,20 @@ fn inject_v(b: &Built, plan: &Plan, set: u32, vars: &[u8; 16], perr_sel: usize) 
         }
     }
     if has(set, D_ALG) {
-        let nv = ["AWS4-HMAC-SHA512", "aws4-hmac-sha256", "", "AWS4-HMAC-SHA25", "AWS4-HMAC-SHA256x"][v(D_ALG) as usize];
+        let nv = ["AWS4-HMAC-SHA512", "aws4-hmac-sha256", "", "AWS4-HMAC-SHA25", "AWS4-HMAC-SHA256x", "AWS4-HMAC-SHA256\t", "\u{a0}AWS4-HMAC-SHA256"][v(D_ALG) as usize];
         if q {
-            query = query.replace("X-Amz-Algorithm=AWS4-HMAC-SHA256", &format!("X-Amz-Algorithm={}", nv));
+            let nvq = ["AWS4-HMAC-SHA512", "aws4-hmac-sha256", "", "AWS4-HMAC-SHA25", "AWS4-HMAC-SHA256x", "AWS4-HMAC-SHA256%20", "%A0AWS4-HMAC-SHA256"][v(D_ALG) as usize];
+            query = query.replace("X-Amz-Algorithm=AWS4-HMAC-SHA256", &format!("X-Amz-Algorithm={}", nvq));
+        } else if v(D_ALG) == 5 {
+            auth_mut(&mut w, |a| a.replacen("AWS4-HMAC-SHA256 ", "AWS4-HMAC-SHA256\t", 1));
+        } else if v(D_ALG) == 6 {
+            for h in w.headers.iter_mut() {
+                if h.0.eq_ignore_ascii_case(b"authorization") {
+                    let mut nvb = vec![0xa0u8];
+                    nvb.extend(h.1.iter());
+                    h.1 = nvb;
+                }
+            }
         } else if nv.is_empty() {
             auth_mut(&mut w, |_| String::new());
         } else {
@@ -1566,6 +1871,9 @@ pub fn c16_e2e(o: &mut O, tier: &str, rng: &mut Rng) {
             plan.query_carrier = (i + style as usize) % 3 == 2;
             let frac = if style_has_fraction(style) { [0u32, 123_456_789, 999_999_999][i % 3] } else { 0 };
             let text = render_time(t, frac, style);
+            if refiso::parse(text.as_bytes()) != Some(t as i128 * 1_000_000_000 + frac as i128) {
+                continue;
+            }
             plan.date_text = Some(text.clone());
             let b = build(&plan, &sp, rng, frac as i128);
             let mut x = x_accept();
@@ -1748,6 +2056,10 @@ pub fn c19(o: &mut O, tier: &str, rng: &mut Rng) {
                 (format!("{}, {}", auth_s.replace(&sh_good, "SignedHeaders="), sh_good), Some(true), "signed_headers_first_empty"),
                 (format!("{}, SignedHeaders=host", auth_s), if list == "host" { Some(true) } else { Some(false) }, "signed_headers_last_other"),
                 (format!("{}, {}", auth_s.replace(&sh_good, "SignedHeaders=host"), sh_good), Some(true), "signed_headers_first_other"),
+                // tabs where blanks may stand (left to the correspondence with the model)
+                (auth_s.replace(", ", ",\t"), None, "param_tab_separated"),
+                (auth_s.replace(", ", "\t, "), None, "param_tab_before_comma"),
+                (format!("{}\t", auth_s), None, "param_trailing_tab"),
                 // a parameter whose name differs in letter case is another parameter
                 (format!("{}, signature={}", auth_s, "0".repeat(64)), None, "param_other_case_after"),
                 (format!("{}, {}", auth_s.replace(&sig_good, &format!("signature={}", "0".repeat(64))), sig_good), None, "param_other_case_before"),
@@ -2014,6 +2326,161 @@ pub fn c08(o: &mut O, tier: &str, rng: &mut Rng) {
         w.uri = format!("/?{}", q);
         emit(o, 8, &w, &b.cfg, &b.prov, &x, "c08,degenerate_query_carrier");
     }
+    // --- a malformed escape followed by a multi-byte character (the bytes after '%' are not a
+    // character boundary), in the path, in the URL query and in a folded form body under the
+    // UTF-8 and the Latin-1 family charsets; escapes with signs and blanks
+    {
+        let tails = ["%A\u{e9}", "%\u{20ac}", "%\u{1F600}", "%\u{e9}", "%\u{e9}\u{e9}", "%A\u{20ac}", "%A\u{1F600}", "%\u{7ff}x", "%z\u{e9}", "%%\u{e9}", "%4\u{e9}", "%+A", "%-1", "% 1", "%+\u{e9}"];
+        for (ti, t) in tails.iter().enumerate() {
+            for s3 in [false, true] {
+                if tier == "quick" && s3 && ti % 3 != 0 {
+                    continue;
+                }
+                for u in [format!("/caf{}", t), format!("/{}/x", t), format!("/a/{}", t), format!("/?Name=50{}", t), format!("/?{}=1", t), format!("/?a=1&b{}c=2", t), format!("/p{}?q={}", t, t)] {
+                    let b = build(&base_plan(), &sp, rng, 0);
+                    let mut w = b.wire.clone();
+                    w.uri = u;
+                    let mut c = b.cfg.clone();
+                    c.s3 = s3;
+                    c.fold = ti % 2 == 0;
+                    emit(o, 8, &w, &c, &b.prov, &x, "c08,escape_then_multibyte,uri");
+                }
+            }
+            // the same text as a form body, as UTF-8 and as Latin-1 / windows-1252 bytes where representable
+            let utf8: Vec<u8> = t.as_bytes().to_vec();
+            let latin1: Option<Vec<u8>> = t.chars().map(|ch| if (ch as u32) < 256 { Some(ch as u32 as u8) } else if ch == '\u{20ac}' { Some(0x80) } else { None }).collect();
+            let mut forms: Vec<(&str, Vec<u8>)> = vec![("utf-8", utf8.clone()), ("", utf8.clone()), ("UTF8", utf8.clone())];
+            if let Some(l) = latin1 {
+                forms.push(("iso-8859-1", l.clone()));
+                forms.push(("windows-1252", l.clone()));
+                forms.push(("latin1", l.clone()));
+                forms.push(("iso-8859-15", l));
+            }
+            for (cs, bytes) in forms {
+                for shape in 0..4 {
+                    if tier == "quick" && (shape + ti) % 2 != 0 {
+                        continue;
+                    }
+                    let mut body: Vec<u8> = match shape {
+                        0 => b"Action=ListUsers&Name=50".to_vec(),
+                        1 => b"".to_vec(),
+                        2 => b"a=1&".to_vec(),
+                        _ => b"k".to_vec(),
+                    };
+                    body.extend(bytes.iter());
+                    if shape == 1 {
+                        body.extend(b"=1");
+                    }
+                    let mut p2 = base_plan();
+                    p2.method = "POST".to_string();
+                    let ct = if cs.is_empty() { "application/x-www-form-urlencoded".to_string() } else { format!("application/x-www-form-urlencoded; charset={}", cs) };
+                    p2.headers.push(("content-type".to_string(), ct.into_bytes()));
+                    let b = build(&p2, &sp, rng, 0);
+                    let mut w = b.wire.clone();
+                    w.body = body;
+                    let mut c = b.cfg.clone();
+                    c.fold = true;
+                    emit(o, 8, &w, &c, &b.prov, &x, "c08,escape_then_multibyte,form_body");
+                }
+            }
+        }
+    }
+    // --- bytes that are not ASCII text right after each delimiter of the Authorization value and of the
+    // query-carrier parameters (a lone 0xFF, a truncated and a complete UTF-8 character, NBSP, a tab, a NUL escape)
+    {
+        let b = build(&base_plan(), &sp, rng, 0);
+        let ai = b.wire.headers.iter().position(|h| h.0.eq_ignore_ascii_case(b"authorization")).unwrap();
+        let auth = b.wire.headers[ai].1.clone();
+        let inserts: [&[u8]; 6] = [b"\xff", b"\xc3", b"\xc3\xa9", b"\xa0", b"\t", b"\xe2\x82"];
+        let mut k = 0usize;
+        for pos in 0..=auth.len() {
+            let at_delim = pos == 0 || pos == auth.len() || b" =,/;".contains(&auth[pos - 1]);
+            if !at_delim {
+                continue;
+            }
+            for ins in inserts.iter() {
+                k += 1;
+                if tier == "quick" && k % 3 != 0 {
+                    continue;
+                }
+                let mut v = auth[..pos].to_vec();
+                v.extend(ins.iter());
+                v.extend(auth[pos..].iter());
+                let mut w = b.wire.clone();
+                w.headers[ai].1 = v;
+                emit(o, 8, &w, &b.cfg, &b.prov, &x, "c08,bytes_after_delimiter,authorization");
+            }
+        }
+        let mut p2 = base_plan();
+        p2.query_carrier = true;
+        p2.token = Some(b"tok".to_vec());
+        let bq = build(&p2, &sp, rng, 0);
+        let uri = bq.wire.uri.clone();
+        let qinserts = ["%FF", "%C3", "%C3%A9", "%A0", "%00", "%E2%82", "\u{e9}", "%", "%2"];
+        let ub = uri.as_bytes();
+        let mut k = 0usize;
+        for pos in 2..=ub.len() {
+            let at_delim = pos == ub.len() || b"?&=".contains(&ub[pos - 1]) || (pos >= 3 && (&ub[pos - 3..pos] == b"%2F" || &ub[pos - 3..pos] == b"%3B"));
+            if !at_delim {
+                continue;
+            }
+            for ins in qinserts.iter() {
+                k += 1;
+                if tier == "quick" && k % 4 != 0 {
+                    continue;
+                }
+                let mut w = bq.wire.clone();
+                w.uri = format!("{}{}{}", &uri[..pos], ins, &uri[pos..]);
+                emit(o, 8, &w, &bq.cfg, &bq.prov, &x, "c08,bytes_after_delimiter,query_carrier");
+            }
+        }
+    }
+    // --- URIs at the length limit of the `http` crate, unfolded; deep and dotted paths
+    {
+        let sizes: Vec<usize> = if tier == "quick" { vec![4000, 65534] } else { vec![1000, 32768, 65000, 65500, 65531, 65532, 65533, 65534, 65535] };
+        for sz in sizes {
+            for (k, u) in [
+                format!("/{}", "a".repeat(sz - 1)),
+                format!("/?{}", "a".repeat(sz - 2)),
+                format!("/?a={}", "%41".repeat((sz - 4) / 3)),
+                format!("{}", "/..".repeat(sz / 3)),
+                format!("{}", "/a/..".repeat(sz / 5)),
+                format!("/{}%", "b".repeat(sz - 2)),
+                format!("/?{}", "&".repeat(sz - 2)),
+                format!("/?{}{}", "=&".repeat(1500.min((sz - 2) / 2)), "a".repeat(sz.saturating_sub(3002))),
+            ]
+            .iter()
+            .enumerate()
+            {
+                // (each 64 KiB case costs the Coq side some ten seconds: four of them in the quick tier)
+                if tier == "quick" && sz == 65534 && ![0usize, 3, 5, 7].contains(&k) {
+                    continue;
+                }
+                let b = build(&base_plan(), &sp, rng, 0);
+                let mut w = b.wire.clone();
+                w.uri = u.clone();
+                let mut c = b.cfg.clone();
+                c.s3 = k % 2 == 1;
+                emit(o, 8, &w, &c, &b.prov, &x, "c08,long_uri");
+            }
+        }
+    }
+    // --- form bodies with a byte-order mark, lone continuation bytes, overlong forms, NULs, only separators
+    for body in [&b"\xef\xbb\xbfa=1"[..], b"a=1\xef\xbb\xbf", b"\xff\xfea\x00=\x001\x00", b"\x00", b"a=\x00", b"&&&&", b"====", b"=&=&=", b"a=1&&", b"&a=1", b"%", b"a=%", b"a=%4", b"%4", b"+", b"a=\xc0\x80", b"a=\xf8\x88\x80\x80\x80", b"a=\xed\xb0\x80", b"a=\xf4\x8f\xbf\xbf", b"a=\xc2"] {
+        for ct in [&b"application/x-www-form-urlencoded"[..], b"application/x-www-form-urlencoded; charset=utf-8", b"application/x-www-form-urlencoded; charset=iso-8859-1", b"application/x-www-form-urlencoded;charset=utf-16le"] {
+            let mut p2 = base_plan();
+            p2.method = "POST".to_string();
+            p2.headers.push(("content-type".to_string(), ct.to_vec()));
+            let b = build(&p2, &sp, rng, 0);
+            let mut w = b.wire.clone();
+            w.body = body.to_vec();
+            let mut c = b.cfg.clone();
+            c.fold = true;
+            emit(o, 8, &w, &c, &b.prov, &x, "c08,odd_form_body");
+        }
+    }
+    // --- key construction for every capacity (the C06 capacity family; no capacity and no length may panic)
+    crate::fam_direct::capacity_cases(o, tier);
     // --- server times at the edge of chrono's range are out of scope of the model (see DESIGN);
     // --- random structurally valid requests with random options
     let n = if tier == "quick" { 40 } else { 600 };
